@@ -130,6 +130,36 @@ def r16_1_iterator_form(prog, rep, gp):
     return True
 
 
+def created_empty(cf, c):
+    """(fresh, how): does the file-opening call `c` of body `cf` yield an empty file -- File::create, create_new, or OpenOptions with create_new, or create + truncate
+    and no append. The builder is followed through statement-by-statement setters and through chained ones."""
+    cn5 = cnorm(c.term)
+    fresh = True
+    why5 = cn5.rsplit('::', 1)[-1]
+    if cn5 == 'std::fs::OpenOptions::open':
+        oo = origins(cf, [c.term.args[0].place[0]]) if c.term.args[0].place is not None else None
+        owners = [l for l in (oo.locals if oo else []) if 'OpenOptions' in cf.lty(l) and not cf.lty(l).startswith('&')]
+        setters = {}
+        for l in owners:
+            for ent in mutarg_defs(cf).get(l, []):
+                t5 = ent[1]
+                if t5.cmethod in ('truncate', 'create', 'create_new', 'append', 'write') and len(t5.args) > 1:
+                    setters[t5.cmethod] = const_eval(cf, t5.args[1])
+        for x in (oo.calls if oo else []):
+            t5 = cf.blocks[x].term
+            if t5.cmethod in ('truncate', 'create', 'create_new', 'append', 'write') and len(t5.args) > 1:
+                setters[t5.cmethod] = const_eval(cf, t5.args[1])
+        # builder chain `options.write(true).create(true).truncate(true)`: each setter receives the reference returned by the previous one
+        for b5 in cf.calls():
+            t5 = b5.term
+            if t5.cmethod in ('truncate', 'create', 'create_new', 'append', 'write') and 'OpenOptions' in cnorm(t5) and len(t5.args) > 1 and t5.args[0].place is not None:
+                if set(origins(cf, [t5.args[0].place[0]]).locals) & set(owners):
+                    setters[t5.cmethod] = const_eval(cf, t5.args[1])
+        fresh = (setters.get('create_new') == 1) or (setters.get('create') == 1 and setters.get('truncate') == 1 and setters.get('append') != 1)
+        why5 = 'OpenOptions %s' % sorted(setters.items())
+    return fresh, why5
+
+
 def run(prog, rep, tier):
     mlar = prog.crates['mlar']
     # ---------------- R16.1 component filter
@@ -251,33 +281,8 @@ def run(prog, rep, tier):
     # ---------------- R16.5 "extracted ... with exactly their content": the destination is created empty (File::create, create_new, or OpenOptions with
     # create + truncate / create_new): a file that already exists in the output directory does not keep its old bytes
     if cf is not None:
-        for c in [b for b in cf.calls() if cnorm(b.term) in ('std::fs::File::create', 'std::fs::File::create_new', 'std::fs::OpenOptions::open', 'std::fs::File::options')]:
-            cn5 = cnorm(c.term)
-            if cn5 == 'std::fs::File::options':
-                continue
-            fresh = True
-            why5 = cn5.rsplit('::', 1)[-1]
-            if cn5 == 'std::fs::OpenOptions::open':
-                oo = origins(cf, [c.term.args[0].place[0]]) if c.term.args[0].place is not None else None
-                owners = [l for l in (oo.locals if oo else []) if 'OpenOptions' in cf.lty(l) and not cf.lty(l).startswith('&')]
-                setters = {}
-                for l in owners:
-                    for ent in mutarg_defs(cf).get(l, []):
-                        t5 = ent[1]
-                        if t5.cmethod in ('truncate', 'create', 'create_new', 'append', 'write') and len(t5.args) > 1:
-                            setters[t5.cmethod] = const_eval(cf, t5.args[1])
-                for x in (oo.calls if oo else []):
-                    t5 = cf.blocks[x].term
-                    if t5.cmethod in ('truncate', 'create', 'create_new', 'append', 'write') and len(t5.args) > 1:
-                        setters[t5.cmethod] = const_eval(cf, t5.args[1])
-                # builder chain `options.write(true).create(true).truncate(true)`: each setter receives the reference returned by the previous one
-                for b5 in cf.calls():
-                    t5 = b5.term
-                    if t5.cmethod in ('truncate', 'create', 'create_new', 'append', 'write') and 'OpenOptions' in cnorm(t5) and len(t5.args) > 1 and t5.args[0].place is not None:
-                        if set(origins(cf, [t5.args[0].place[0]]).locals) & set(owners):
-                            setters[t5.cmethod] = const_eval(cf, t5.args[1])
-                fresh = (setters.get('create_new') == 1) or (setters.get('create') == 1 and setters.get('truncate') == 1 and setters.get('append') != 1)
-                why5 = 'OpenOptions %s' % sorted(setters.items())
+        for c in [b for b in cf.calls() if cnorm(b.term) in ('std::fs::File::create', 'std::fs::File::create_new', 'std::fs::OpenOptions::open')]:
+            fresh, why5 = created_empty(cf, c)
             rep.ob('R16.5', fresh, 'R16.5|%s|destination-created-empty' % cf.nkey, 'destination created empty (%s)' % why5 if fresh else
                    'the destination file is opened without being emptied (%s): when it already exists its old content survives next to / under the extracted bytes' % why5, cf.loc(c.idx))
     # ---------------- R16.3 callers
@@ -349,7 +354,7 @@ def run(prog, rep, tier):
             cn = cnorm(b.term)
             if cn in FS_SINKS and cn != 'std::fs::File::options':
                 sinks.append((body, b, cn))
-    rep.floor('R16.4', len(sinks), 8, 'filesystem-mutating calls in mlar')
+    rep.floor('R16.4', len(sinks), 4, 'filesystem-mutating calls in mlar')   # fewer sinks is safer: the floor only guards against an empty enumeration
     seen_keys = {}
     for body, b, cn in sinks:
         rep.fn(body)
